@@ -25,12 +25,16 @@ import (
 func init() {
 	hx.Register(&hx.Prop{
 		ID: "C09",
-		Rule: "exhaustive: every set of ≤2 (thorough: ≤3) templates out of a universe of 10 (root, literal/templated siblings, shared prefixes, 0–2 variables, " +
-			"mid-segment variable, trailing-slash template) × 3 method layouts × 6 server configurations (none, relative, absolute with trailing slash, host+port variables, " +
-			"scheme variable + second server, relative with variable) × request forms per configuration (right/wrong base, host, scheme, enum value inside/outside, absolute and " +
+		Rule: "exhaustive: every set of ≤2 (thorough: ≤3, an eighth of the 3-sets' cases) templates out of a universe of 11 (root, literal/templated siblings, shared prefixes, 0–2 variables, " +
+			"mid-segment variable, trailing-slash template, /a next to /a/) × 3 method layouts × 12 server configurations (none, relative, absolute with trailing slash, host+port variables, " +
+			"scheme variable + second server, relative with variable, two relative servers with different base paths, three servers with one base a path prefix of another, " +
+			"path-item level servers on the first / on the last template with one or two document-level servers, path-item level absolute server with variable and no document-level server) " +
+			"× request forms per configuration (through each declared server, wrong base, host, scheme, enum value inside/outside, absolute and " +
 			"server-style URL) × 20 paths (filled templates and near-misses: empty binding, //, trailing slash, missing/extra segment, empty path) × methods GET/POST/unknown, for both routers " +
-			"(quick tier: a deterministic sixth of it); plus a seeded random stream of documents (1–5 templates from a segment grammar, 0–3 variables, up to 9 methods, random servers) with " +
-			"requests built from the document's own templates and mutations of them. Non-trivial = the model reports a branch other than the bare not-found of a server-less document.",
+			"(quick tier: a deterministic sixth of it); plus a seeded random stream of documents (1–5 templates from a segment grammar, 0–3 variables, up to 9 methods, sometimes a template and its " +
+			"trailing-slash twin; 0–3 document-level servers with different base paths from six shapes, path-item level servers on one or two path items in 22% of the documents) with " +
+			"requests built from the document's own templates and mutations of them, sent through the forms of every declared server. Observed per case: error kind, route template, method, " +
+			"operation identity, path parameters and the identity of Route.Server. Non-trivial = the model reports a branch other than the bare not-found of a server-less document.",
 		Exhaustive: true,
 		Gen:        genC09,
 		Run:        runC09,
@@ -38,10 +42,11 @@ func init() {
 		Shrink:     shrinkC09,
 		Workers:    8,
 		Assumptions: []string{
-			"request URLs consist of unreserved characters (no percent-encoding); net/url parsing is trusted",
+			"request URLs consist of unreserved characters plus, in 7% of the random requests, one percent-encoded character (an unreserved one, %2F, %20, a dot or dash); net/url parsing and escaping are trusted; such a request is judged under both readings of 'the request path' (escaped, decoded)",
 			"gorilla/mux regular-expression matching is modelled as greedy leftmost-first template matching; host variables match [^.]+, path variables [^/]+",
-			"no `{name*}` wildcard or `{name:regexp}` templates, no path-item level servers, at most one variable in a server's scheme part",
-			"no two path keys that the legacy router stores at the same trie node (`/a` and `/a/`): their order of insertion is a Go map iteration order",
+			"no `{name*}` wildcard or `{name:regexp}` templates, at most one variable in a server's scheme part",
+			"where two path keys share a node of the legacy trie (`/a` and `/a/`) the router's answer depends on a Go map iteration order: the model gives the set of answers over the insertion orders and the observed answer has to be one of them",
+		"Route.Server is compared by pointer identity with the servers of the document (document level, path-item level); operation-level `servers` are not generated (neither router reads them)",
 			"port variables are requested with their default value only (gorillamux documents that only the default matches); no explicit port is requested from a server whose URL has none (mux ignores the port then)",
 		},
 	})
@@ -90,9 +95,16 @@ func c09Doc(c hx.Case) *openapi3.T {
 			}
 			pi.SetOperation(m, op)
 		}
+		pi.Servers = c09Servers(pm["s"])
 		doc.Paths.Set(t, pi)
 	}
-	for _, s := range jlist(c["servers"]) {
+	doc.Servers = c09Servers(c["servers"])
+	return doc
+}
+
+func c09Servers(l any) openapi3.Servers {
+	var out openapi3.Servers
+	for _, s := range jlist(l) {
 		sm, _ := s.(map[string]any)
 		srv := &openapi3.Server{URL: jstr(sm, "url")}
 		for _, v := range jlist(sm["vars"]) {
@@ -102,9 +114,35 @@ func c09Doc(c hx.Case) *openapi3.T {
 			}
 			srv.Variables[jstr(vm, "n")] = &openapi3.ServerVariable{Default: jstr(vm, "d"), Enum: toStrs(vm["e"])}
 		}
-		doc.Servers = append(doc.Servers, srv)
+		out = append(out, srv)
 	}
-	return doc
+	return out
+}
+
+// which declared server Route.Server points to: "nil", "doc#i", "path#<template>#i" (the i-th server of the path item
+// declared under <template>), "foreign" for a pointer that is none of the document's servers
+func c09SrvRef(doc *openapi3.T, s *openapi3.Server) string {
+	if s == nil {
+		return "nil"
+	}
+	for i, x := range doc.Servers {
+		if x == s {
+			return fmt.Sprintf("doc#%d", i)
+		}
+	}
+	var ts []string
+	for t := range doc.Paths.Map() {
+		ts = append(ts, t)
+	}
+	sort.Strings(ts)
+	for _, t := range ts {
+		for i, x := range doc.Paths.Value(t).Servers {
+			if x == s {
+				return fmt.Sprintf("path#%s#%d", t, i)
+			}
+		}
+	}
+	return "foreign"
 }
 
 func c09Build(c hx.Case) *c09Built {
@@ -154,7 +192,11 @@ func c09Request(c hx.Case) *http.Request {
 		}
 		req = &http.Request{Method: method, URL: u, Host: u.Host, Header: http.Header{}}
 	} else {
-		req = &http.Request{Method: method, URL: &url.URL{Path: path}, Host: host, Header: http.Header{}}
+		u := &url.URL{Path: path}
+		if d, ok := c["dpath"].(string); ok && d != path {
+			u = &url.URL{Path: d, RawPath: path} // "path" is the escaped path as written on the wire
+		}
+		req = &http.Request{Method: method, URL: u, Host: host, Header: http.Header{}}
 		if scheme == "https" {
 			req.TLS = &tls.ConnectionState{}
 		}
@@ -195,7 +237,8 @@ func runC09(c hx.Case) any {
 			opOK = true
 		}
 	}
-	return map[string]any{"kind": "route", "template": route.Path, "method": route.Method, "params": ps, "opOK": opOK}
+	return map[string]any{"kind": "route", "template": route.Path, "method": route.Method, "params": ps, "opOK": opOK,
+		"server": c09SrvRef(b.doc, route.Server)}
 }
 
 func c09SameParams(a, b any) bool {
@@ -230,18 +273,49 @@ func cmpC09(c hx.Case, impl any, reply map[string]any) hx.Verdict {
 		// model (which predicts a routing outcome) does not describe it
 		return hx.Verdict{IM: jstr(model, "kind") == "builderror", IS: true, Detail: "document not accepted: " + jstr(im, "msg")}
 	}
-	// implementation vs model
-	if kind != jstr(model, "kind") {
-		v.IM = false
-	} else if kind == "route" {
-		if jstr(im, "template") != jstr(model, "template") || jstr(im, "method") != jstr(model, "method") || !c09SameParams(im["params"], model["params"]) {
-			v.IM = false
+	// implementation vs model; where the legacy router's outcome depends on a map iteration order (two keys at one
+	// trie node) the model gives the set of possible outcomes and the observed one has to be in it
+	same := func(model map[string]any) bool {
+		if kind != jstr(model, "kind") {
+			return false
+		}
+		if kind == "route" {
+			return jstr(im, "template") == jstr(model, "template") && jstr(im, "method") == jstr(model, "method") &&
+				c09SameParams(im["params"], model["params"]) && jstr(im, "server") == jstr(model, "server")
+		}
+		return true
+	}
+	v.IM = same(model)
+	for _, a := range jlist(reply["modelAlts"]) {
+		if am, _ := a.(map[string]any); am != nil && !v.IM {
+			v.IM = same(am)
 		}
 	}
 	if !v.IM {
-		v.Detail = fmt.Sprintf("impl %v vs model %v", hx.Canon(im), hx.Canon(model))
+		v.Detail = fmt.Sprintf("impl %v vs model %v %v", hx.Canon(im), hx.Canon(model), hx.Canon(reply["modelAlts"]))
 	}
-	// implementation vs spec
+	// implementation vs spec; a percent-encoded request is judged under both readings of "the request path" (escaped and
+	// decoded) and has to satisfy the property under one of them
+	imDetail := v.Detail
+	c09Judge(c, im, kind, spec, &v)
+	if !v.IS {
+		if alt, _ := reply["specAlt"].(map[string]any); alt != nil {
+			w := hx.Verdict{IM: v.IM, IS: true}
+			c09Judge(c, im, kind, alt, &w)
+			if w.IS {
+				v.IS = true
+				v.Detail = imDetail
+			}
+		}
+	}
+	if jbool(im, "hasRoute") {
+		v.IS = false
+		v.Detail = "an error was returned together with a route"
+	}
+	return v
+}
+
+func c09Judge(c hx.Case, im map[string]any, kind string, spec map[string]any, v *hx.Verdict) {
 	must := jstr(spec, "must")
 	switch kind {
 	case "route":
@@ -250,7 +324,8 @@ func cmpC09(c hx.Case, impl any, reply map[string]any) hx.Verdict {
 			got, _ := im["params"].(map[string]any)
 			for _, a := range jlist(spec["allowed"]) {
 				am, _ := a.(map[string]any)
-				if jstr(am, "template") != jstr(im, "template") {
+				// the route must name the template AND the server under which the template reproduces the request
+				if jstr(am, "template") != jstr(im, "template") || jstr(am, "server") != jstr(im, "server") {
 					continue
 				}
 				all := true
@@ -284,11 +359,6 @@ func cmpC09(c hx.Case, impl any, reply map[string]any) hx.Verdict {
 		v.IS = false
 		v.Detail = fmt.Sprintf("unexpected outcome %v; the property requires %v", hx.Canon(im), hx.Canon(spec))
 	}
-	if jbool(im, "hasRoute") {
-		v.IS = false
-		v.Detail = "an error was returned together with a route"
-	}
-	return v
 }
 
 // ---------------------------------------------------------------- generator
@@ -327,23 +397,67 @@ type c09Form struct {
 type c09SrvCfg struct {
 	servers []any
 	forms   []c09Form
+	// path-item level servers of the i-th of n templates of the document (nil: none anywhere)
+	pathSrv func(i, n int) []any
+}
+
+func c09WithPathServers(paths []any, cfg c09SrvCfg) []any {
+	if cfg.pathSrv == nil {
+		return paths
+	}
+	out := make([]any, len(paths))
+	for i, p := range paths {
+		pm := p.(map[string]any)
+		out[i] = map[string]any{"t": pm["t"], "m": pm["m"], "s": cfg.pathSrv(i, len(paths))}
+	}
+	return out
 }
 
 var c09SrvCfgs = []c09SrvCfg{
-	{[]any{}, []c09Form{{true, "http", "localhost", ""}, {false, "http", "localhost", ""}}},
-	{[]any{c09S("/v1")}, []c09Form{{false, "http", "localhost", "/v1"}, {false, "https", "localhost", "/v2"}, {false, "http", "localhost", ""}, {true, "http", "localhost", "/v1"}}},
+	{[]any{}, []c09Form{{true, "http", "localhost", ""}, {false, "http", "localhost", ""}}, nil},
+	{[]any{c09S("/v1")}, []c09Form{{false, "http", "localhost", "/v1"}, {false, "https", "localhost", "/v2"}, {false, "http", "localhost", ""}, {true, "http", "localhost", "/v1"}}, nil},
 	{[]any{c09S("https://example.com/v1/")}, []c09Form{{true, "https", "example.com", "/v1"}, {true, "http", "example.com", "/v1"}, {true, "https", "example.org", "/v1"},
-		{true, "https", "example.com", ""}, {false, "https", "example.com", "/v1"}}},
+		{true, "https", "example.com", ""}, {false, "https", "example.com", "/v1"}}, nil},
 	{[]any{c09S("https://{env}.example.com:{port}/v1", c09V("env", "prod", "prod", "dev"), c09V("port", "8443"))}, []c09Form{
 		{true, "https", "prod.example.com:8443", "/v1"}, {true, "https", "dev.example.com:8443", "/v1"}, {true, "https", "qa.example.com:8443", "/v1"},
-		{true, "https", "prod.example.com", "/v1"}, {false, "https", "dev.example.com:8443", "/v1"}}},
+		{true, "https", "prod.example.com", "/v1"}, {false, "https", "dev.example.com:8443", "/v1"}}, nil},
 	{[]any{c09S("{scheme}://example.com", c09V("scheme", "https", "http", "https")), c09S("/alt")}, []c09Form{
-		{true, "https", "example.com", ""}, {true, "http", "example.com", ""}, {true, "ftp", "example.com", ""}, {false, "http", "localhost", "/alt"}, {false, "http", "example.com", ""}}},
+		{true, "https", "example.com", ""}, {true, "http", "example.com", ""}, {true, "ftp", "example.com", ""}, {false, "http", "localhost", "/alt"}, {false, "http", "example.com", ""}}, nil},
 	{[]any{c09S("/{ver}/api", c09V("ver", "v1", "v1", "v2"))}, []c09Form{{false, "http", "localhost", "/v1/api"}, {false, "http", "localhost", "/v2/api"},
-		{false, "http", "localhost", "/v3/api"}, {false, "http", "localhost", "/api"}}},
+		{false, "http", "localhost", "/v3/api"}, {false, "http", "localhost", "/api"}}, nil},
+	// several servers with different base paths: the returned Route.Server has to be the one the request came through
+	{[]any{c09S("/v1"), c09S("/v2/x")}, []c09Form{{false, "http", "localhost", "/v1"}, {false, "http", "localhost", "/v2/x"}, {false, "http", "localhost", "/v2"},
+		{false, "http", "localhost", ""}}, nil},
+	// … one base path a path prefix of another, absolute and relative mixed
+	{[]any{c09S("https://example.com/api"), c09S("https://example.com/api/v2/"), c09S("/alt")}, []c09Form{{true, "https", "example.com", "/api"},
+		{true, "https", "example.com", "/api/v2"}, {false, "http", "localhost", "/alt"}, {true, "http", "example.com", "/api/v2"}}, nil},
+	// path-item level servers on the first template (two of them), document-level server for the others
+	{[]any{c09S("/v1")}, []c09Form{{false, "http", "localhost", "/v1"}, {false, "http", "localhost", "/p"}, {false, "http", "localhost", "/q/r"}, {false, "http", "localhost", ""}},
+		func(i, n int) []any {
+			if i == 0 {
+				return []any{c09S("/p"), c09S("/q/r")}
+			}
+			return []any{}
+		}},
+	// path-item level servers on the last template, two document-level servers
+	{[]any{c09S("/v1"), c09S("/v2")}, []c09Form{{false, "http", "localhost", "/v1"}, {false, "http", "localhost", "/v2"}, {false, "http", "localhost", "/p"}},
+		func(i, n int) []any {
+			if i == n-1 {
+				return []any{c09S("/p")}
+			}
+			return []any{}
+		}},
+	// no document-level servers, an absolute path-item level server with a variable on the last template
+	{[]any{}, []c09Form{{true, "https", "prod.example.com", "/p"}, {true, "https", "prod.example.com", ""}, {false, "http", "localhost", ""}, {true, "https", "qa.example.com", "/p"}},
+		func(i, n int) []any {
+			if i == n-1 {
+				return []any{c09S("https://{env}.example.com/p", c09V("env", "prod", "prod", "dev"))}
+			}
+			return []any{}
+		}},
 }
 
-var c09Universe = []string{"/", "/a", "/a/b", "/a/{x}", "/{y}/b", "/a/{x}/c/{y}", "/b/{x}", "/report.{format}", "/a/{x}/c", "/c/"}
+var c09Universe = []string{"/", "/a", "/a/b", "/a/{x}", "/{y}/b", "/a/{x}/c/{y}", "/b/{x}", "/report.{format}", "/a/{x}/c", "/c/", "/a/"}
 
 var c09Paths = []string{"", "/", "/a", "/a/", "/b", "/b/", "/a/b", "/a/1", "/a//c/1", "/a/1/c/2", "/a/1/c", "/zz/b", "/a/b/", "/report.pdf", "/report.",
 	"/c", "/c/", "//", "/a/b/c", "/b/1"}
@@ -355,21 +469,45 @@ var c09MethodLayouts = [][][]string{
 }
 
 func c09Emit(emit func(hx.Case), router string, paths []any, servers []any, f c09Form, path, method string) {
-	emit(hx.Case{"router": router, "paths": paths, "servers": servers, "method": method, "abs": f.abs,
-		"scheme": f.scheme, "host": f.host, "path": f.prefix + path})
+	c := hx.Case{"router": router, "paths": paths, "servers": servers, "method": method, "abs": f.abs,
+		"scheme": f.scheme, "host": f.host}
+	c09SetPath(c, f.prefix+path)
+	emit(c)
 }
 
-// legacy stores "/a" and "/a/" at one node: keep such pairs out (see Assumptions)
-func c09Collide(ts []string) bool {
-	seen := map[string]bool{}
-	for _, t := range ts {
-		k := strings.TrimRight(t, "/")
-		if seen[k] {
-			return true
+// "path" is the escaped path as written on the wire; "dpath" its decoded form, present only when the two differ
+func c09SetPath(c hx.Case, p string) {
+	c["path"] = p
+	delete(c, "dpath")
+	if strings.Contains(p, "%") {
+		if d, err := url.PathUnescape(p); err == nil && d != p {
+			c["dpath"] = d
 		}
-		seen[k] = true
 	}
-	return false
+}
+
+// percent-encode something inside the path: an unreserved character (decodes to itself), an encoded slash or space
+// inside a segment, a dot or dash
+func c09Encode(r *hx.Rng, p string) string {
+	if len(p) < 2 {
+		return p
+	}
+	i := 1 + r.Intn(len(p)-1)
+	switch r.Intn(4) {
+	case 0:
+		if ch := p[i]; ch != '/' && ch != '%' {
+			return p[:i] + fmt.Sprintf("%%%02X", ch) + p[i+1:]
+		}
+	case 1:
+		return p[:i] + "%2F" + p[i:]
+	case 2:
+		return p[:i] + "%20" + p[i:]
+	case 3:
+		if j := strings.IndexAny(p, ".-"); j >= 0 {
+			return p[:j] + fmt.Sprintf("%%%02X", p[j]) + p[j+1:]
+		}
+	}
+	return p
 }
 
 func genC09(ctx *hx.Ctx, emit func(hx.Case)) {
@@ -394,9 +532,6 @@ func genC09(ctx *hx.Ctx, emit func(hx.Case)) {
 	methods := []string{"GET", "POST", "FOO"}
 	cnt := 0
 	for si, set := range sets {
-		if c09Collide(set) {
-			continue
-		}
 		for li, lay := range c09MethodLayouts {
 			paths := []any{}
 			for i, t := range set {
@@ -412,7 +547,7 @@ func genC09(ctx *hx.Ctx, emit func(hx.Case)) {
 								if (si+li+ci+fi+pi+mi)%6 != 0 {
 									continue
 								}
-							} else if len(set) == 3 && (si+li+ci+fi+pi+mi)%4 != 0 {
+							} else if len(set) == 3 && (si+li+ci+fi+pi+mi)%8 != 0 {
 								continue
 							}
 							for _, router := range []string{"legacy", "gorilla"} {
@@ -427,7 +562,7 @@ func genC09(ctx *hx.Ctx, emit func(hx.Case)) {
 	// ---- random stream
 	N := 3000
 	if ctx.Thorough() {
-		N = 90000
+		N = 45000
 	}
 	r := ctx.Rng
 	for i := 0; i < N; i++ {
@@ -513,43 +648,62 @@ func c09Norm(t string) string {
 	return sb.String()
 }
 
-func c09RandServers(r *hx.Rng) ([]any, []c09Form) {
-	if r.Chance(30) {
-		cfg := c09SrvCfgs[0]
-		return cfg.servers, cfg.forms
-	}
-	if r.Chance(50) {
-		cfg := c09SrvCfgs[1+r.Intn(len(c09SrvCfgs)-1)]
-		return cfg.servers, cfg.forms
-	}
-	// composed: one or two servers from building blocks
-	type blk struct {
-		s     map[string]any
-		forms []c09Form
-	}
+type c09Blk struct {
+	s     map[string]any
+	forms []c09Form
+}
+
+// k different server building blocks, each with its own base path (bases differ between the blocks of one call whenever possible)
+func c09RandBlocks(r *hx.Rng, k int) []c09Blk {
 	envs := []string{"prod", "dev"}
-	base := hx.Pick(r, []string{"", "/v1", "/api/v2", "/v1/"})
-	b := strings.TrimSuffix(base, "/")
-	blocks := []blk{
-		{c09S("/" + strings.TrimPrefix(base, "/")), []c09Form{{false, "http", "localhost", b}, {false, "https", "h.test", b}, {false, "http", "localhost", "/zz"}, {true, "http", "localhost", b}}},
-		{c09S("http://api.test" + base), []c09Form{{true, "http", "api.test", b}, {true, "https", "api.test", b}, {true, "http", "other.test", b}, {false, "http", "api.test", b}}},
-		{c09S("https://{env}.api.test"+base, c09V("env", "prod", envs...)), []c09Form{{true, "https", "prod.api.test", b}, {true, "https", "dev.api.test", b}, {true, "https", "qa.api.test", b}, {true, "https", "api.test", b}}},
-		{c09S("https://{tenant}.api.test:{port}"+base, c09V("tenant", "acme"), c09V("port", "8443", "8443", "443")), []c09Form{{true, "https", "acme.api.test:8443", b}, {true, "https", "other.api.test:8443", b}, {true, "https", "acme.api.test", b}}},
-		{c09S("https://api.test/{ver}"+base, c09V("ver", "v1", "v1", "v2")), []c09Form{{true, "https", "api.test", "/v1" + b}, {true, "https", "api.test", "/v2" + b}, {true, "https", "api.test", "/v9" + b}, {true, "https", "api.test", b}}},
-		{c09S("{scheme}://api.test"+base, c09V("scheme", "https", "https", "http")), []c09Form{{true, "https", "api.test", b}, {true, "http", "api.test", b}, {true, "ws", "api.test", b}}},
-	}
-	k := 1 + r.Intn(2)
-	var servers []any
-	var forms []c09Form
+	bases := []string{"", "/v1", "/api/v2", "/v1/", "/api", "/v2/x"}
 	usedIdx := map[int]bool{}
+	usedBase := map[string]bool{}
+	var out []c09Blk
 	for i := 0; i < k; i++ {
+		base := hx.Pick(r, bases)
+		for try := 0; try < 6 && usedBase[strings.TrimSuffix(base, "/")]; try++ {
+			base = hx.Pick(r, bases)
+		}
+		usedBase[strings.TrimSuffix(base, "/")] = true
+		b := strings.TrimSuffix(base, "/")
+		blocks := []c09Blk{
+			{c09S("/" + strings.TrimPrefix(base, "/")), []c09Form{{false, "http", "localhost", b}, {false, "https", "h.test", b}, {false, "http", "localhost", "/zz"}, {true, "http", "localhost", b}}},
+			{c09S("http://api.test" + base), []c09Form{{true, "http", "api.test", b}, {true, "https", "api.test", b}, {true, "http", "other.test", b}, {false, "http", "api.test", b}}},
+			{c09S("https://{env}.api.test"+base, c09V("env", "prod", envs...)), []c09Form{{true, "https", "prod.api.test", b}, {true, "https", "dev.api.test", b}, {true, "https", "qa.api.test", b}, {true, "https", "api.test", b}}},
+			{c09S("https://{tenant}.api.test:{port}"+base, c09V("tenant", "acme"), c09V("port", "8443", "8443", "443")), []c09Form{{true, "https", "acme.api.test:8443", b}, {true, "https", "other.api.test:8443", b}, {true, "https", "acme.api.test", b}}},
+			{c09S("https://api.test/{ver}"+base, c09V("ver", "v1", "v1", "v2")), []c09Form{{true, "https", "api.test", "/v1" + b}, {true, "https", "api.test", "/v2" + b}, {true, "https", "api.test", "/v9" + b}, {true, "https", "api.test", b}}},
+			{c09S("{scheme}://api.test"+base, c09V("scheme", "https", "https", "http")), []c09Form{{true, "https", "api.test", b}, {true, "http", "api.test", b}, {true, "ws", "api.test", b}}},
+		}
 		j := r.Intn(len(blocks))
-		if usedIdx[j] {
+		if r.Chance(40) {
+			j = r.Intn(2) // plain relative / plain absolute servers are the common case
+		}
+		if usedIdx[j] && j > 1 {
 			continue
 		}
 		usedIdx[j] = true
-		servers = append(servers, blocks[j].s)
-		forms = append(forms, blocks[j].forms...)
+		out = append(out, blocks[j])
+	}
+	return out
+}
+
+// document-level servers, the request forms that address them
+func c09RandServers(r *hx.Rng) ([]any, []c09Form) {
+	if r.Chance(25) {
+		cfg := c09SrvCfgs[0]
+		return cfg.servers, cfg.forms
+	}
+	if r.Chance(35) {
+		cfg := c09SrvCfgs[1+r.Intn(7)] // the configurations without path-item level servers
+		return cfg.servers, cfg.forms
+	}
+	// composed: one to three servers from building blocks
+	servers := []any{}
+	var forms []c09Form
+	for _, b := range c09RandBlocks(r, 1+r.Intn(3)) {
+		servers = append(servers, b.s)
+		forms = append(forms, b.forms...)
 	}
 	return servers, forms
 }
@@ -612,9 +766,17 @@ func c09Random(r *hx.Rng, emit func(hx.Case)) {
 	var ts []string
 	norm := map[string]bool{}
 	stripped := map[string]bool{}
+	collide := r.Chance(12)
 	for len(ts) < nt {
 		var t string
-		if len(ts) > 0 && r.Chance(45) {
+		if collide && len(ts) > 0 && r.Chance(40) {
+			base := hx.Pick(r, ts)
+			if strings.HasSuffix(base, "/") {
+				t = strings.TrimRight(base, "/")
+			} else {
+				t = base + "/"
+			}
+		} else if len(ts) > 0 && r.Chance(45) {
 			// sibling: share a prefix with an earlier template
 			base := hx.Pick(r, ts)
 			segs := strings.Split(strings.TrimRight(base, "/"), "/")
@@ -639,7 +801,9 @@ func c09Random(r *hx.Rng, emit func(hx.Case)) {
 		} else {
 			t = c09RandTemplate(r)
 		}
-		if t == "" || norm[c09Norm(t)] || stripped[strings.TrimRight(c09Norm(t), "/")] {
+		// a template and the same template with a trailing slash are both valid and distinct for the specification (the
+		// legacy router stores them at one trie node): let such pairs through now and then
+		if t == "" || norm[c09Norm(t)] || (stripped[strings.TrimRight(c09Norm(t), "/")] && !collide) {
 			nt--
 			continue
 		}
@@ -670,6 +834,49 @@ func c09Random(r *hx.Rng, emit func(hx.Case)) {
 		paths = append(paths, c09P(t, ms...))
 	}
 	servers, forms := c09RandServers(r)
+	// path-item level servers on one or two of the path items (gorillamux honours them, the legacy router does not)
+	if r.Chance(22) {
+		np := 1
+		if len(paths) > 1 && r.Chance(35) {
+			np = 2
+		}
+		for q := 0; q < np; q++ {
+			i := r.Intn(len(paths))
+			pm := paths[i].(map[string]any)
+			ps := []any{}
+			for _, b := range c09RandBlocks(r, 1+r.Intn(2)) {
+				ps = append(ps, b.s)
+				forms = append(forms, b.forms...)
+			}
+			paths[i] = map[string]any{"t": pm["t"], "m": pm["m"], "s": ps}
+		}
+	}
+	// mux ignores the port of the request when a host template has none (see Assumptions): ask with an explicit port only
+	// when every absolute server of the document declares one
+	portEverywhere := true
+	chk := func(l []any) {
+		for _, sv := range l {
+			u := jstr(sv.(map[string]any), "url")
+			if i := strings.Index(u, "://"); i >= 0 && !strings.Contains(u[i+3:], ":") {
+				portEverywhere = false
+			}
+		}
+	}
+	chk(servers)
+	for _, p := range paths {
+		chk(jlist(p.(map[string]any)["s"]))
+	}
+	if !portEverywhere {
+		kept := forms[:0:0]
+		for _, f := range forms {
+			if !strings.Contains(f.host, ":") {
+				kept = append(kept, f)
+			}
+		}
+		if len(kept) > 0 {
+			forms = kept
+		}
+	}
 	// server variable names must not clash with template variables (mux: duplicated route variable): they don't, by construction
 	nreq := 6 + r.Intn(8)
 	for q := 0; q < nreq; q++ {
@@ -680,6 +887,9 @@ func c09Random(r *hx.Rng, emit func(hx.Case)) {
 		}
 		if r.Chance(8) { // the literal text of another template
 			p = c09Fill(r, hx.Pick(r, ts))
+		}
+		if r.Chance(7) && !strings.Contains(p, "%") {
+			p = c09Encode(r, p)
 		}
 		var m string
 		switch k := r.Intn(100); {
@@ -749,6 +959,20 @@ func shrinkC09(c hx.Case) []hx.Case {
 			out = append(out, x)
 		}
 	}
+	for i, p := range paths {
+		pm, _ := p.(map[string]any)
+		ps := jlist(pm["s"])
+		if len(ps) == 0 {
+			continue
+		}
+		for _, n := range append(dropEach(ps), []any{}) {
+			x := cloneCase(c)
+			np := append([]any{}, paths...)
+			np[i] = map[string]any{"t": pm["t"], "m": pm["m"], "s": n}
+			x["paths"] = np
+			out = append(out, x)
+		}
+	}
 	servers := jlist(c["servers"])
 	for _, n := range dropEach(servers) {
 		x := cloneCase(c)
@@ -760,7 +984,7 @@ func shrinkC09(c hx.Case) []hx.Case {
 			for i := 1; i < len(p); i++ {
 				if p[i] == '/' {
 					y := cloneCase(x)
-					y["path"] = p[i:]
+					c09SetPath(y, p[i:])
 					y["abs"] = true
 					y["scheme"], y["host"] = "http", "localhost"
 					out = append(out, y)
@@ -775,7 +999,7 @@ func shrinkC09(c hx.Case) []hx.Case {
 		for i := 1; i < len(segs); i++ {
 			ns := append(append([]string{}, segs[:i]...), segs[i+1:]...)
 			x := cloneCase(c)
-			x["path"] = strings.Join(ns, "/")
+			c09SetPath(x, strings.Join(ns, "/"))
 			out = append(out, x)
 		}
 	}
